@@ -5,6 +5,7 @@ go 1.26
 require (
 	github.com/markusressel/fan2go v0.0.0
 	github.com/pterm/pterm v0.12.79
+	go.etcd.io/bbolt v1.4.0
 )
 
 require (
@@ -54,7 +55,6 @@ require (
 	github.com/valyala/bytebufferpool v1.0.0 // indirect
 	github.com/valyala/fasttemplate v1.2.2 // indirect
 	github.com/xo/terminfo v0.0.0-20220910002029-abceb7e1c41e // indirect
-	go.etcd.io/bbolt v1.4.0 // indirect
 	golang.org/x/crypto v0.36.0 // indirect
 	golang.org/x/exp v0.0.0-20240909161429-701f63a606c0 // indirect
 	golang.org/x/net v0.38.0 // indirect
